@@ -152,6 +152,14 @@ def call_run_case(mod, case):
         import time as _time
         os.environ["TZ"] = tz
         _time.tzset()
+    warn_ctx = None
+    if isinstance(case, dict) and case.get("warn_error"):
+        # the application runs with warnings turned into errors (python -W error / pytest -W error) - for warnings
+        # issued from the library's own modules only (the harness and asyncio keep their defaults)
+        import warnings as _warnings
+        warn_ctx = _warnings.catch_warnings()
+        warn_ctx.__enter__()
+        _warnings.filterwarnings("error", module=r"goodwe(\..*)?$")
     debug_log = isinstance(case, dict) and case.get("debug_log")
     if debug_log:
         # the application has switched the library's logger to DEBUG (records are built and handled, output dropped)
@@ -167,6 +175,8 @@ def call_run_case(mod, case):
             res["wall_hits"] = _WALL["hits"] - hits0
         return res
     finally:
+        if warn_ctx is not None:
+            warn_ctx.__exit__(None, None, None)
         if tz:
             import time as _time
             if old_tz is None:
